@@ -133,13 +133,26 @@ func c09PartB(rep *Report, m *model.Client, r *rand.Rand, n int) {
 		cfg := gen.PickConfig(hr)
 		prof := gen.DefaultProfile()
 		ops := gen.History(hr, prof)
+		if i%5 == 4 {
+			// a completely full bounded file: overwriting a committed page needs an overwrite page that can not
+			// be allocated - the Commit fails while flushing its pages (before any I/O of the commit sequence)
+			cfg = engine.Config{PageSize: 1024, MaxSize: uint64(64+hr.Intn(32)) * 1024, InitMetaArea: uint32(hr.Intn(2) * 2)}
+			ops = fillAllOps(hr)
+			ops = append(ops, engine.Op{Kind: "begin"})
+			for k := 1 + hr.Intn(4); k > 0; k-- {
+				ops = append(ops, engine.Op{Kind: "setfull", P: hr.Intn(1 << 16), Seed: 1 + hr.Intn(1000)})
+			}
+			ops = append(ops, engine.Op{Kind: "commit"}, engine.Op{Kind: "rbegin"}, engine.Op{Kind: "rread", R: 0, P: 1}, engine.Op{Kind: "rclose", R: 0},
+				engine.Op{Kind: "begin"}, engine.Op{Kind: "free", P: 3}, engine.Op{Kind: "commit"}, engine.Op{Kind: "verify"})
+			rep.count("B:scenario:commit-fails-while-flushing-on-a-full-file", 1)
+		}
 		c09TrackedHistory(rep, m, cfg, ops, hseed)
 	}
 }
 
 func c09TrackedHistory(rep *Report, m *model.Client, cfg engine.Config, ops []engine.Op, hseed int64) {
 	tr := &lockTracker{m: m, state: "0,0,0"}
-	var mism []string
+	var mism, idle []string
 	inCommit := false
 	setup := func(e *engine.Engine) {
 		e.Disk.Hook = func(kind simdisk.OpKind, idx int) {
@@ -213,10 +226,20 @@ func c09TrackedHistory(rep *Report, m *model.Client, cfg engine.Config, ops []en
 			if got := lkString(s, p, rs); got != tr.state {
 				mism = append(mism, fmt.Sprintf("after %v: lock is (%s), model says (%s)", op, got, tr.state))
 			}
+			if e.Tx == nil && readers == 0 && e.NumReaders() == 0 {
+				if got := lkString(s, p, rs); got != "0,0,0" {
+					idle = append(idle, fmt.Sprintf("after %v (err=%q) no transaction is open but the lock is (%s): the next BeginReadonly / Begin / Close would block", op, res.Err, got))
+				}
+			}
 			rep.count("B:api-samples", 1)
 		}
 	}
-	e, err := engine.RunHistory(cfg, ops, setup)
+	var e *engine.Engine
+	var err error
+	rep.guard(60*time.Second, Violation{Kind: "oracle", Sig: "lock-usage/history-does-not-return",
+		Detail: fmt.Sprintf("an API call of a single-goroutine history blocks for ever on %s; lock-state findings so far: %v; history: %s", cfg, idle, trunc(opKinds(ops), 500)),
+		Replay: histReplay{Config: cfg, Ops: ops, Seed: hseed, Mode: "lock-tracking"}},
+		func() { e, err = engine.RunHistory(cfg, ops, setup) })
 	rep.Evaluations++
 	if err != nil {
 		return
@@ -236,6 +259,11 @@ func c09TrackedHistory(rep *Report, m *model.Client, cfg engine.Config, ops []en
 	rep.Traces++
 	rep.nontrivial(fmt.Sprintf("B/%v", e.Stats))
 	mism = append(mism, tr.bad...)
+	if len(idle) > 0 {
+		rep.violate(Violation{Kind: "oracle", Sig: "lock-usage/lock-not-idle-with-no-transaction-open",
+			Detail: idle[0] + " on " + cfg.String() + "; history: " + trunc(opKinds(ops), 400),
+			Replay: histReplay{Config: cfg, Ops: ops, Failures: idle, Seed: hseed, Mode: "lock-tracking"}})
+	}
 	if len(mism) > 0 {
 		rep.violate(Violation{Kind: "correspondence", Sig: "lock-usage/" + failSig(mism[0]),
 			Detail: mism[0] + " on " + cfg.String(),
